@@ -263,6 +263,9 @@ func runC19(c *ctx) {
 			if i%5 == 0 {
 				chunk = 1 + r.intn(7)
 			}
+			if i%5 == 1 {
+				chunk = -(1 + r.intn(5000)) // end of input reported together with the last bytes
+			}
 			add(fmt.Sprintf("walk%d", i), in, chunk)
 		}
 		// input ending inside a token / invalid UTF-8 (termination only)
@@ -315,6 +318,9 @@ func runC19(c *ctx) {
 			chunk := 0
 			if p%7 == 0 {
 				chunk = 1000 + p%613
+			}
+			if p%7 == 3 {
+				chunk = -(700 + p%3511)
 			}
 			add(fmt.Sprintf("pad%d", p), pad+body, chunk)
 			if p%2 == 0 {
